@@ -5,6 +5,7 @@ grouping into subsections), every number once.
 -/
 import PdfVerif.Lemmas.XrefTable
 import PdfVerif.Lemmas.XrefHist
+import PdfVerif.Lemmas.XrefChain
 
 namespace PdfVerif.Xref
 
@@ -133,5 +134,108 @@ theorem secLists_table (subs : List Sub) (ents : List (Nat × Entry))
   have h1 : (Section.table (insSubs subs [])).getPos n = specSubs subs (n : Int) none := by
     simp [Section.getPos, lookup_insSubs, lookupOff]
   rw [h1, specSubs_flat, lastOf_nodup _ _ ha, lookupOff_same _ _ _ ha hb hab, lookupOff_entsInt]
+
+/-! ### Cross-reference streams -/
+
+theorem lookupNat_append' {α : Type} (a b : List (Nat × α)) (n : Nat) :
+    lookupNat (a ++ b) n = match lookupNat a n with | some v => some v | none => lookupNat b n := by
+  induction a with
+  | nil => rfl
+  | cons x a ih =>
+    obtain ⟨k, v⟩ := x
+    by_cases hk : (k == n) = true
+    · simp [lookupNat, hk]
+    · have hk' : (k == n) = false := by simpa using hk
+      simp only [List.cons_append, lookupNat, hk', Bool.false_eq_true, ↓reduceIte]
+      exact ih
+
+theorem lookup_rangeRows (s c : Nat) (rows : List Row) (n : Nat) (h : c ≤ rows.length) :
+    lookupNat (rangeRows s c rows) n = if s ≤ n ∧ n < s + c then (rows[n - s]?).map specRowEntry else none := by
+  induction c generalizing s rows with
+  | zero =>
+    have : ¬ (s ≤ n ∧ n < s + 0) := by omega
+    rw [if_neg this]
+    rfl
+  | succ c ih =>
+    cases rows with
+    | nil => simp at h
+    | cons r rows =>
+      simp only [rangeRows, lookupNat]
+      by_cases hk : s = n
+      · subst hk
+        have : s ≤ s ∧ s < s + (c + 1) := by omega
+        simp [this]
+      · have hk' : (s == n) = false := by simpa using hk
+        simp only [hk', Bool.false_eq_true, ↓reduceIte]
+        rw [ih (s + 1) rows (by simp at h; omega)]
+        by_cases hin : s ≤ n ∧ n < s + (c + 1)
+        · have hin' : s + 1 ≤ n ∧ n < s + 1 + c := by omega
+          have hidx : n - s = (n - (s + 1)) + 1 := by omega
+          simp only [hin, hin', and_self, ↓reduceIte]
+          rw [hidx, List.getElem?_cons_succ]
+        · have hin' : ¬ (s + 1 ≤ n ∧ n < s + 1 + c) := by omega
+          simp [hin, hin']
+
+theorem rowSpec_flat (ranges : List (Nat × Nat)) (rows : List Row) (n : Nat) (h : sumCounts ranges ≤ rows.length) :
+    (rowSpec ranges rows n).bind specRowEntry = (lookupNat (flatRows ranges rows) n).join := by
+  induction ranges generalizing rows with
+  | nil => rfl
+  | cons sc rest ih =>
+    obtain ⟨s, c⟩ := sc
+    simp only [sumCounts] at h
+    simp only [rowSpec, flatRows]
+    rw [lookupNat_append', lookup_rangeRows s c rows n (by omega)]
+    by_cases hin : s ≤ n ∧ n < s + c
+    · have hlt : n - s < rows.length := by omega
+      simp only [hin, and_self, ↓reduceIte, List.getElem?_eq_getElem hlt, Option.map_some, Option.bind_some,
+        Option.join_some]
+    · simp only [hin, ↓reduceIte]
+      exact ih (rows.drop c) (by simp only [List.length_drop]; omega)
+
+theorem lookup_inuse_nokey (l : List (Nat × Option Entry)) (n : Nat) (h : n ∉ l.map (·.1)) :
+    lookupNat (inuseRows l) n = none := by
+  induction l with
+  | nil => rfl
+  | cons p r ih =>
+    obtain ⟨k, o⟩ := p
+    simp only [List.map_cons, List.mem_cons, not_or] at h
+    have hk : (k == n) = false := by simpa using Ne.symm h.1
+    cases o with
+    | none => simpa [inuseRows] using ih h.2
+    | some e =>
+      have := ih h.2
+      simp only [inuseRows] at this
+      simp [inuseRows, lookupNat, hk, this]
+
+theorem join_lookup_inuse (l : List (Nat × Option Entry)) (n : Nat) (h : (l.map (·.1)).Nodup) :
+    (lookupNat l n).join = lookupNat (inuseRows l) n := by
+  induction l with
+  | nil => rfl
+  | cons p r ih =>
+    obtain ⟨k, o⟩ := p
+    simp only [List.map_cons, List.nodup_cons] at h
+    by_cases hk : (k == n) = true
+    · have hkn : k = n := by simpa using hk
+      simp only [lookupNat, hk, ↓reduceIte, Option.join_some]
+      cases o with
+      | none =>
+        have := lookup_inuse_nokey r n (hkn ▸ h.1)
+        simpa [inuseRows] using this.symm
+      | some e => simp [inuseRows, lookupNat, hk]
+    · have hk' : (k == n) = false := by simpa using hk
+      simp only [lookupNat, hk', Bool.false_eq_true, ↓reduceIte]
+      rw [ih h.2]
+      cases o with
+      | none => simp [inuseRows]
+      | some e => simp [inuseRows, lookupNat, hk']
+
+/-- What the rows of non-overlapping `/Index` ranges say = what the writer's entry list says. -/
+theorem rowSpec_lists (ranges : List (Nat × Nat)) (rows : List Row) (ents : List (Nat × Entry))
+    (hlen : sumCounts ranges ≤ rows.length) (h : streamListsB ranges rows ents = true) (n : Nat) :
+    (rowSpec ranges rows n).bind specRowEntry = lookupNat ents n := by
+  simp only [streamListsB, Bool.and_eq_true] at h
+  obtain ⟨ha, hb, hab⟩ := sameAssocB_sound _ _ h.2
+  rw [rowSpec_flat ranges rows n hlen, join_lookup_inuse _ n (nodupNat_sound _ h.1),
+    ← lookupOff_entsInt, lookupOff_same _ _ _ ha hb hab, lookupOff_entsInt]
 
 end PdfVerif.Xref
